@@ -84,7 +84,19 @@ def py_to_val(v):
     return tuple(py_to_val(x) if isinstance(x, (list, tuple)) else str(x) for x in v)
 
 
-def make_record(kind, v, refs, pad=0):
+def ref_tokens(oid, formats):
+    """The persistent ids written for one referenced oid.  With formats on, some oids are referenced in several
+    of the formats ZODB.serialize documents (strong with class, weak, bare oid) inside the same state."""
+    out = ['strong']
+    if formats:
+        if oid % 2 == 1:
+            out.append('weak')
+        if oid % 3 == 2:
+            out.append('bare')
+    return out
+
+
+def make_record(kind, v, refs, pad=0, formats=False):
     """Bytes of a record for an object of class `kind` with value v (model tuple) and
     strong references to the oids in refs (ints)."""
     module, name = CLASSES[kind]
@@ -94,12 +106,15 @@ def make_record(kind, v, refs, pad=0):
     from . import model_classes
 
     def pid2(ob):
-        # ordinary reference format of ZODB.serialize: (oid, class)
         if isinstance(ob, Ref):
-            return (p64(ob.oid), model_classes.VObj)
+            if ob.kind == 'weak':
+                return ['w', (p64(ob.oid),)]
+            if ob.kind == 'bare':
+                return p64(ob.oid)
+            return (p64(ob.oid), model_classes.VObj)     # ordinary reference format: (oid, class)
         return None
     p.persistent_id = pid2
-    state = {'v': val_to_py(v), 'refs': [Ref(o) for o in sorted(refs)]}
+    state = {'v': val_to_py(v), 'refs': [Ref(o, k) for o in sorted(refs) for k in ref_tokens(o, formats)]}
     if pad:
         state['pad'] = 'x' * pad
     p.dump(state)
@@ -111,7 +126,7 @@ def ref_oid(pid):
     if isinstance(pid, tuple):
         return u64(_b(pid[0])), 'strong'
     if isinstance(pid, (bytes, str)):
-        return u64(_b(pid)), 'strong'
+        return u64(_b(pid)), 'bare'
     if isinstance(pid, list):
         if len(pid) == 1:
             return u64(_b(pid[0])), 'weak'
@@ -150,8 +165,12 @@ def read_record(data):
     meta = u.load()
     state = u.load()
     klass = meta[0] if isinstance(meta, tuple) and isinstance(meta[0], tuple) else meta
-    refs = frozenset(r.oid for r in state.get('refs', ()) if isinstance(r, _LoadedRef) and r.kind == 'strong')
+    refs = frozenset(r.oid for r in state.get('refs', ()) if isinstance(r, _LoadedRef) and r.kind in ('strong', 'bare'))
+    read_record.tokens = sorted((r.oid, r.kind) for r in state.get('refs', ()) if isinstance(r, _LoadedRef))
     return klass, py_to_val(state['v']), refs
+
+
+FORMATS = False      # set by a check that concretises references in several formats (C10)
 
 
 def datum_of(data):
@@ -159,7 +178,12 @@ def datum_of(data):
     if data is None:
         return {'v': ('gone',), 'refs': frozenset()}
     k, v, refs = read_record(data)
-    return {'v': v, 'refs': refs}
+    d = {'v': v, 'refs': refs}
+    if FORMATS:
+        want = sorted((o, t) for o in refs for t in ref_tokens(o, True))
+        if read_record.tokens != want:
+            d['reference_formats'] = tuple(read_record.tokens)     # shows up as a divergence
+    return d
 
 
 def norm(x):
